@@ -6,7 +6,7 @@ step    := [method, [arg...], {kw: arg}?, then-step?]   (applied to the result o
            step is applied to the Query class; "then" chains on the result, e.g. join(...).on(...))
 src     := ["tbl", name, schema, alias, temporal?] | ["sub", program, alias] | ["cte", name]
 arg     := expression | ["src", key] | ["py", json] | ["pyv", kind, text] | ["q", program] | ["enum", Enum, member]
-           | ["pylist", [arg]] | ["pytuple", [arg]] | ["pyset", [arg]] | ["slice", a, b] | ["index", name]
+           | ["mkcols", [arg]] (spread: *Columns(...)) | ["pylist", [arg]] | ["pytuple", [arg]] | ["pyset", [arg]] | ["slice", a, b] | ["index", name]
            | ["column", name, type, nullable, default-arg] | ["edge", "Preceding"|"Following", n] | ["currow"]
 """
 from __future__ import annotations
@@ -178,6 +178,8 @@ def build_arg(node, env):
         return tuple(build_arg(a, env) for a in node[1])
     if k == "pyset":
         return set(build_arg(a, env) for a in node[1])
+    if k == "mkcols":
+        return _Splat(P.Columns(*[build_arg(a, env) for a in node[1]]))
     if k == "slice":
         return slice(node[1], node[2])
     if k == "index":
@@ -337,9 +339,19 @@ def build_expr(node, env):
     raise HarnessError("unknown expression node %r" % (k,))
 
 
+class _Splat(list):
+    """a list-valued argument that is spread into the call (q.columns(*Columns(...)))"""
+
+
 def apply_step(obj, step, env):
     m = step[0]
-    args = [build_arg(a, env) for a in (step[1] if len(step) > 1 else [])]
+    args = []
+    for a in (step[1] if len(step) > 1 else []):
+        v = build_arg(a, env)
+        if isinstance(v, _Splat):
+            args.extend(v)
+        else:
+            args.append(v)
     kw = {k: build_arg(v, env) for k, v in (step[2] if len(step) > 2 and step[2] else {}).items()}
     if m == "__getitem__":
         res = obj[args[0]]
